@@ -10,8 +10,8 @@ pub const PROPS: &[&str] = &["C15"];
 
 pub fn case(i: u64, seed: u64) -> Scenario {
     let mut k = i;
-    let lead = (k % 15) as i32 - 7;
-    k /= 15;
+    let lead = (k % 25) as i32 - 12;
+    k /= 25;
     // up to 100 ms the replies to a quality report arrive before the next one is sent (200 ms interval);
     // 130 and 250 ms have one or more reports in flight
     let lat = [0u16, 5, 10, 20, 35, 50, 75, 100, 130, 250, 400][(k % 11) as usize];
@@ -34,7 +34,9 @@ pub fn case(i: u64, seed: u64) -> Scenario {
     // ... and as long as the acknowledgement round trip fits into the 2 x window frames of received inputs an
     // endpoint keeps for decoding (beyond that packets are only decodable after a re-acknowledgement and inputs
     // arrive later than the link latency: a degraded regime in which the estimates are off by more than a frame)
-    if lead.abs() + lat_frames - delay as i32 + 3 > sc.max_pred as i32 || 2 * lat_frames + 3 > 2 * sc.max_pred as i32 {
+    // (until fix d0d3e9a a second restriction applied: the acknowledgement round trip had to fit into the 2 x window
+    // frames of received inputs an endpoint kept for decoding)
+    if lead.abs() + lat_frames - delay as i32 + 3 > sc.max_pred as i32 {
         sc.max_pred = 40;
     }
     sc.sched = 0;
@@ -73,7 +75,7 @@ pub fn case(i: u64, seed: u64) -> Scenario {
     }
     sc
 }
-pub const NCASES: u64 = 15 * 11 * 3 * 3;
+pub const NCASES: u64 = 25 * 11 * 3 * 3;
 
 pub fn eval(sc: &Scenario) -> CaseResult {
     let mut opts = RunOpts::default();
@@ -225,6 +227,41 @@ pub fn eval(sc: &Scenario) -> CaseResult {
     r
 }
 
+/// plain lockstep sessions (window 0, `advance_frame()`), input delay d, any latency: a lead of k frames is possible
+/// as long as k + latency (in frames) stays below d; beyond that the leader stalls, the lead is not steady and the
+/// case counts as trivial
+pub fn lockstep_case(i: u64, seed: u64) -> Scenario {
+    let mut k = i;
+    let fps = [60u16, 30, 120][(k % 3) as usize];
+    k /= 3;
+    let delay = [3u8, 4, 6, 8, 12][(k % 5) as usize];
+    k /= 5;
+    let lat = [0u16, 5, 10, 20, 35, 42, 50, 75, 100][(k % 9) as usize];
+    k /= 9;
+    let lead = (k % 11) as i32 - 5;
+    let mut sc = Scenario::basic(mix(seed ^ 0xc15c, i), 2);
+    sc.fps = fps;
+    sc.max_pred = 0;
+    sc.desync = 0;
+    sc.sched = 0;
+    sc.fine_poll = true;
+    for p in sc.peers.iter_mut() {
+        p.delay = delay;
+    }
+    sc.link = LinkProfile { loss: 0, dup: 0, lat_min: lat, lat_max: lat };
+    let fm = (1000 / fps as u32).max(1);
+    let pause_tick = (10 * lat as u32 + 250) / fm + 20;
+    if lead != 0 {
+        sc.ops.push(Op::Pause { tick: pause_tick, node: if lead > 0 { 1 } else { 0 }, ticks: lead.unsigned_abs() });
+    }
+    sc.ticks = pause_tick + 60 + 400 + (1200 / fm);
+    sc.settle = 0;
+    sc.timeout_ms = 5000;
+    sc.notify_ms = 3000;
+    sc
+}
+pub const NCASES_LS: u64 = 3 * 5 * 9 * 11;
+
 /// lockstep sessions (window 0) with input delay d, driven through the wait helper
 /// (`advance_frame_with_wait_timeout(3 ms)`), over a link whose latency is at least that timeout (so that the
 /// simulator's parallel-wait clock is exact, see Scenario::wait_mode) and whose round trip is shorter than a tick
@@ -346,8 +383,11 @@ pub fn run_prop(ctx: &Ctx) -> PropReport {
     let seed = ctx.seed;
     let reps = ctx.tier.pick(2u64, 8u64);
     rep.part(|| run_enum(ctx, "steady_lead",
-        "bounded enumeration: lead k in -7..=7 x symmetric latency {0,5,10,20,35,50,75,100,130,250,400 ms} x fps {60,30,120} x input delay {0,2,6}; two peers, window 40 (sometimes 8 or 4), desync detection off/1/5/12, on half of the long links a disconnect timeout below the round-trip time, lock-stepped ticks after a warm-up, polls every millisecond between ticks (as the documented loop polls every iteration); oracle, sampled every 10 ticks after the warm-up: |frames_ahead_A - k| <= 1, |frames_ahead_B + k| <= 1, |sum| <= 1; every WaitRecommendation raised only with frames_ahead() >= 3 as read right after that call, skip_frames == frames_ahead(), >= 60 frames apart, and given at all when |k| >= 4; 2L <= ping <= 2L + one tick; one side's local_frames_behind == the other's remote_frames_behind (+-1, a mismatch must persist for 4 samples: the remote figure lags by the report interval plus the latency); NotEnoughData before 1 s, numbers afterwards; non-trivial = >= 10 post-warm-up samples and stats available",
+        "bounded enumeration: lead k in -12..=12 x symmetric latency {0,5,10,20,35,50,75,100,130,250,400 ms} x fps {60,30,120} x input delay {0,2,6}; two peers, window 40 (sometimes 8 or 4), desync detection off/1/5/12, on half of the long links a disconnect timeout below the round-trip time, lock-stepped ticks after a warm-up, polls every millisecond between ticks (as the documented loop polls every iteration); oracle, sampled every 10 ticks after the warm-up: |frames_ahead_A - k| <= 1, |frames_ahead_B + k| <= 1, |sum| <= 1; every WaitRecommendation raised only with frames_ahead() >= 3 as read right after that call, skip_frames == frames_ahead(), >= 60 frames apart, and given at all when |k| >= 4; 2L <= ping <= 2L + one tick; one side's local_frames_behind == the other's remote_frames_behind (+-1, a mismatch must persist for 4 samples: the remote figure lags by the report interval plus the latency); NotEnoughData before 1 s, numbers afterwards; non-trivial = >= 10 post-warm-up samples and stats available",
         NCASES * reps, move |i| case(i % NCASES, mix(seed, i / NCASES)), eval, true));
+    rep.part(|| run_enum(ctx, "lockstep_lead",
+        "bounded enumeration: lockstep sessions (window 0, advance_frame()) x fps {60,30,120} x input delay {3,4,6,8,12} x symmetric latency {0,5,10,20,35,42,50,75,100 ms} x lead -5..=5; same oracle as steady_lead (cases in which the leader stalls after the warm-up - lead + latency beyond the delay - have no steady lead and count as trivial)",
+        NCASES_LS * ctx.tier.pick(1u64, 3u64), move |i| lockstep_case(i % NCASES_LS, mix(seed, i / NCASES_LS)), eval, true));
     rep.part(|| run_enum(ctx, "lockstep_wait_lead",
         "bounded enumeration: lockstep sessions (window 0) driven through advance_frame_with_wait() x fps {60,120,30} x input delay {3,4,6,8} x latency = 1..2 ticks + a phase of {1, 3, 1/3, 1/2, 2/3 tick} (>= the helper's timeout, so the awaited input arrives while the helper spins) x follower paused for {0,1,2,d-1,d,d+3} ticks (from d - latency on the leader sits at the largest lead lockstep allows and completes every frame from inside the wait loop) x who uses the helper {both, leader, follower} x which peer follows; the peers of a round wait in parallel (Scenario::wait_mode); same oracle as steady_lead",
         NCASES_LW * ctx.tier.pick(1u64, 3u64), move |i| lockstep_wait_case(i % NCASES_LW, mix(seed, i / NCASES_LW)), eval, true));
